@@ -236,13 +236,14 @@ func runC10(c *Ctx) {
 	// BufferedMsgSize flows from the option into NewReader
 	if hs := c.P.Method("wire", "Server", "Handshake"); hs != nil {
 		nr := c.P.Func("buffer", "NewReader")
-		for _, fn := range []*ssa.Function{hs, c.P.Method("wire", "Server", "potentialConnUpgrade")} {
-			if fn == nil {
+		for _, ci := range c.P.CallSitesOf(nr) {
+			fn := ci.Parent()
+			if !c.P.InPkg(fn, "wire") {
 				continue
 			}
-			for _, ci := range callsIn(fn, calleeIs(nr)) {
-				fr, ok := core.FieldOfValue(ci.Common().Args[2])
-				R.Check(ok && fr.Is(pkWire, "Server", "BufferedMsgSize"), "C10.R2", fkey(fn)+":configured-limit", c.at(ci), "readers are built with the configured message buffer size", "NewReader(.., Server.BufferedMsgSize)", "NewReader does not receive Server.BufferedMsgSize")
+			{
+				ok := c.originPath(ci.Common().Args[2], fn, 3) == "Server.BufferedMsgSize"
+				R.Check(ok, "C10.R2", fkey(fn)+":configured-limit", c.at(ci), "readers are built with the configured message buffer size", "NewReader(.., Server.BufferedMsgSize)", "NewReader does not receive Server.BufferedMsgSize")
 			}
 		}
 	}
@@ -307,6 +308,7 @@ func runC10(c *Ctx) {
 		}
 	}
 	c.c10Slurp()
+	c.c10EverySessionRead()
 
 	// ---------- R4: order on the exceeded arm
 	if csc := c.mustMethod("C10.R4", "wire", "Session", "consumeSingleCommand"); csc != nil {
@@ -404,16 +406,16 @@ func (c *Ctx) sizeIsHeaderMinus4(rule string) {
 }
 
 // c10Slurp: chunked skipping.
-func (c *Ctx) c10Slurp() {
+func (c *Ctx) slurpExact(rule string) {
 	R := c.R
-	sl := c.mustMethod("C10.R3", "buffer", "Reader", "Slurp")
+	sl := c.mustMethod(rule, "buffer", "Reader", "Slurp")
 	if sl == nil {
 		return
 	}
 	R.Analysed(fname(sl))
 	loops := core.Loops(sl)
 	if len(loops) != 1 {
-		R.Fail("C10.R3", "Slurp:loop", c.atFn(sl), "Slurp skips in a loop", sprintf("%d loops", len(loops)))
+		R.Fail(rule, "Slurp:loop", c.atFn(sl), "Slurp skips in a loop", sprintf("%d loops", len(loops)))
 		return
 	}
 	var loop *core.Loop
@@ -432,18 +434,18 @@ func (c *Ctx) c10Slurp() {
 		}
 	}
 	if rem == nil {
-		R.Fail("C10.R3", "Slurp:remaining", c.at(h.Instrs[0]), "Slurp tracks the bytes still to skip, starting from its argument", "no loop variable initialised from the size parameter")
+		R.Fail(rule, "Slurp:remaining", c.at(h.Instrs[0]), "Slurp tracks the bytes still to skip, starting from its argument", "no loop variable initialised from the size parameter")
 		return
 	}
 	// guard: remaining > 0
 	okGuard := false
 	if iff, ok := h.Instrs[len(h.Instrs)-1].(*ssa.If); ok {
-		l := core.NewLin(c.P, sl, c.modSets(), c.summaries("C10.R3"))
+		l := core.NewLin(c.P, sl, c.modSets(), c.summaries(rule))
 		if c.canon(l, iff.Cond, true) == canonLE(core.Zero, core.Term{K: core.TVal, V: rem}, -1) && loop.Body[h.Succs[0]] {
 			okGuard = true
 		}
 	}
-	R.Check(okGuard, "C10.R3", "Slurp:loops-while-remaining", c.at(h.Instrs[len(h.Instrs)-1]), "Slurp continues exactly while bytes remain (remaining > 0)", "header condition 0 - remaining <= -1 enters the body", "the loop condition is not remaining > 0")
+	R.Check(okGuard, rule, "Slurp:loops-while-remaining", c.at(h.Instrs[len(h.Instrs)-1]), "Slurp continues exactly while bytes remain (remaining > 0)", "header condition 0 - remaining <= -1 enters the body", "the loop condition is not remaining > 0")
 	// decrement by the bytes read
 	okDec := false
 	var sf *fill
@@ -461,11 +463,11 @@ func (c *Ctx) c10Slurp() {
 			okDec = true
 		}
 	}
-	R.Check(okDec, "C10.R3", "Slurp:subtracts-bytes-read", c.at(h.Instrs[0]), "each iteration subtracts exactly the number of bytes io.ReadFull consumed", "remaining = remaining - n with n the ReadFull result", "the loop variable is not decremented by the ReadFull byte count")
+	R.Check(okDec, rule, "Slurp:subtracts-bytes-read", c.at(h.Instrs[0]), "each iteration subtracts exactly the number of bytes io.ReadFull consumed", "remaining = remaining - n with n the ReadFull result", "the loop variable is not decremented by the ReadFull byte count")
 	// chunk <= limit and <= remaining: lifted preconditions of reset are proved by C04.R2 / panicFreedom; here: chunk <= remaining
 	if sf != nil {
 		for _, ci := range []ssa.Instruction{sf.site} {
-			l := core.NewLin(c.P, sl, c.modSets(), c.summaries("C10.R3"))
+			l := core.NewLin(c.P, sl, c.modSets(), c.summaries(rule))
 			arg := sf.size
 			t, off := l.Expr(arg)
 			okRem := l.Prove(ci, t, core.Term{K: core.TVal, V: rem}, -off)
@@ -476,7 +478,138 @@ func (c *Ctx) c10Slurp() {
 				}
 			}
 			okPos := l.Prove(ci, core.Zero, t, off-1)
-			R.Check(okRem && okMax && okPos, "C10.R3", "Slurp:chunk-bounds", c.at(ci), "each chunk is between 1 and min(remaining, limit) bytes: the skip never buffers more than the limit and never over-reads into the next message", "E-LIN: 1 <= chunk <= remaining and chunk <= MaxMessageSize", sprintf("chunk <= remaining: %v, chunk <= limit: %v, chunk >= 1: %v", okRem, okMax, okPos))
+			R.Check(okRem && okMax && okPos, rule, "Slurp:chunk-bounds", c.at(ci), "each chunk is between 1 and min(remaining, limit) bytes: the skip never buffers more than the limit and never over-reads into the next message", "E-LIN: 1 <= chunk <= remaining and chunk <= MaxMessageSize", sprintf("chunk <= remaining: %v, chunk <= limit: %v, chunk >= 1: %v", okRem, okMax, okPos))
 		}
 	}
+}
+
+func (c *Ctx) c10Slurp() { c.slurpExact("C10.R3") }
+
+// c10EverySessionRead (R6): a declared size above the limit leaves the message body unread in the stream. Every place of
+// the session phase that reads a message frame (ReadTypedMsg / ReadUntypedMsg outside pkg/buffer, reachable from the
+// command loop) must therefore skip the body on that error before the error leaves the library - otherwise the body is
+// parsed as the next messages. The start-up phase ends the connection instead (decided by R5 / C01).
+func (c *Ctx) c10EverySessionRead() {
+	R := c.R
+	slurp := c.P.Method("buffer", "Reader", "Slurp")
+	cc := c.P.Method("wire", "Session", "consumeCommands")
+	if slurp == nil || cc == nil {
+		R.Fail("C10.R6", "anchor", "-", "Reader.Slurp and the command loop resolve", "anchor not found")
+		return
+	}
+	// session phase: what the command loop reaches through static calls, plus the COPY readers (called by statement
+	// functions). Frame reads anywhere else must belong to the start-up phase.
+	session := map[*ssa.Function]bool{}
+	var walk func(fn *ssa.Function)
+	walk = func(fn *ssa.Function) {
+		if fn == nil || session[fn] || !c.P.InScope(fn) {
+			return
+		}
+		session[fn] = true
+		for _, ci := range core.Calls(fn) {
+			walk(core.StaticCallee(ci))
+		}
+		for _, a := range fn.AnonFuncs {
+			walk(a)
+		}
+	}
+	walk(cc)
+	for _, fn := range c.P.ScopeFuncs() {
+		if fn.Signature.Recv() != nil {
+			if n := core.NamedOf(fn.Signature.Recv().Type()); n != nil && (n.Obj().Name() == "CopyReader" || n.Obj().Name() == "BinaryCopyReader") {
+				walk(fn)
+			}
+		}
+	}
+	startup := c.serveRegion()
+	for _, fn := range c.P.ScopeFuncs() {
+		if session[fn] || c.P.InPkg(fn, "buffer") {
+			continue
+		}
+		for _, ci := range core.Calls(fn) {
+			if isReaderMethod(ci, "ReadTypedMsg") || isReaderMethod(ci, "ReadUntypedMsg") {
+				host := fn
+				for host.Parent() != nil {
+					host = host.Parent()
+				}
+				isAuth := core.FuncIs(host, pkWire, "ClearTextPassword")
+				R.Check(startup[fn] || isAuth, "C10.R6", fkey(fn)+":frame-read-phase", c.at(ci), "every frame read outside the session phase belongs to the start-up phase (where an oversized message ends the connection)", "function of the start-up region / authentication strategy", "a frame read in "+fname(fn)+" belongs neither to the session phase nor to start-up: undecided")
+			}
+		}
+	}
+	var reachesSlurp func(fn *ssa.Function, depth int) bool
+	reachesSlurp = func(fn *ssa.Function, depth int) bool {
+		if fn == slurp {
+			return true
+		}
+		if fn == nil || depth == 0 || fn.Blocks == nil || !c.P.InScope(fn) {
+			return false
+		}
+		for _, ci := range core.Calls(fn) {
+			if reachesSlurp(core.StaticCallee(ci), depth-1) {
+				return true
+			}
+		}
+		return false
+	}
+	n := 0
+	for fn := range session {
+		if c.P.InPkg(fn, "buffer") {
+			continue
+		}
+		for _, ci := range core.Calls(fn) {
+			call, ok := ci.(*ssa.Call)
+			if !ok || !(isReaderMethod(call, "ReadTypedMsg") || isReaderMethod(call, "ReadUntypedMsg")) {
+				continue
+			}
+			n++
+			skips := false
+			errv := errResultOf(call)
+			fes := failEdges(errv)
+			// edges on which the error was recognised as size-exceeded: errors.Is / errors.As / UnwrapMessageSizeExceeded on it
+			for _, other := range core.Calls(fn) {
+				oc, isCall := other.(*ssa.Call)
+				if !isCall || len(oc.Call.Args) == 0 || !c.sameErr(oc.Call.Args[0], errv) {
+					continue
+				}
+				if f := core.StaticCallee(oc); f != nil && (core.FuncIs(f, "errors", "Is") || core.FuncIs(f, "errors", "As")) {
+					fes = append(fes, boolEdges(oc, true)...)
+				}
+				if f := core.StaticCallee(oc); f != nil && f.Name() == "UnwrapMessageSizeExceeded" {
+					fes = append(fes, boolEdges(resultOf(oc, 1), true)...)
+				}
+			}
+			for _, b := range fn.Blocks {
+				for _, in := range b.Instrs {
+					inner, isCall := in.(ssa.CallInstruction)
+					if !isCall || !reachesSlurp(core.StaticCallee(inner), 3) {
+						continue
+					}
+					if anyDominates(fes, b) {
+						skips = true
+					}
+				}
+			}
+			R.Check(skips, "C10.R6", fkey(fn)+":oversized-skipped:"+callDescr(call), c.at(call), "wherever the session reads a message frame, a message above the limit is skipped in full before its error is reported (the next message is then processed normally)", "a Reader.Slurp call is reachable on the failure edge of the frame read", "the frame read in "+fname(fn)+" passes the size-exceeded error on without skipping the unread body: the body bytes are parsed as the following messages")
+		}
+	}
+	R.Floor("C10.R6", "session-phase frame reads outside pkg/buffer", n, 2)
+}
+
+// sameErr reports whether a is error value v, possibly through phis / conversions.
+func (c *Ctx) sameErr(a, v ssa.Value) bool {
+	if a == v {
+		return true
+	}
+	for _, r := range core.ErrRoots(a) {
+		if call, ok := r.(*ssa.Call); ok {
+			if ex, ok2 := v.(*ssa.Extract); ok2 && ex.Tuple == ssa.Value(call) {
+				return true
+			}
+			if v == ssa.Value(call) {
+				return true
+			}
+		}
+	}
+	return false
 }
